@@ -469,6 +469,10 @@ type serverCfg struct {
 	methods, ciphers []string
 	tweak            func(*security.SecurityConfig)
 	perCmd           []pcEntry // per-command policies; the fields above are then the connection's default policy
+	// policy: a long-lived server policy OBJECT shared by several connections. Each connection works on
+	// a shallow copy (`connConfig := *s.SecurityConfig`, as server.ServeConn and SecurityManager do), so
+	// slices and maps inside are shared with the policy and with every other connection's copy.
+	policy *security.SecurityConfig
 }
 
 // policyOf: the server's OWN policy for a command -- the entry of the table, else the default.
@@ -1333,6 +1337,10 @@ func runHonestPairX(cc clientCfg, sc serverCfg, cmd int, clientSees string, boun
 		if sc.tweak != nil {
 			sc.tweak(conf)
 		}
+		if sc.policy != nil {
+			connConfig := *sc.policy
+			conf = &connConfig
+		}
 		a := security.NewAuthenticator(conf, sst)
 		r.sv.neg, r.sv.err = a.ServerHandshake(ctx)
 		r.sv.st = sst
@@ -1442,6 +1450,7 @@ type pairShape struct {
 	bound    time.Duration // 0 = hsHonestTimeout
 	nat      bool     // the client reaches the server through an address translator (FS then fails: the path names another endpoint)
 	ct, st   func(*security.SecurityConfig)
+	policy   *security.SecurityConfig // the server side is a connection of this long-lived policy object (sm/scs/levels describe it)
 }
 
 func (sh pairShape) integ() (string, string) {
@@ -1476,7 +1485,7 @@ type pairVerdict struct {
 func runPairCell(sh pairShape, ca, sa, ce, se string, cmd int) pairVerdict {
 	ci, si := sh.integ()
 	cc := clientCfg{auth: ca, enc: ce, integ: ci, methods: sh.cm, ciphers: sh.cc, tweak: sh.ct}
-	sc := serverCfg{auth: sa, enc: se, integ: si, methods: sh.sm, ciphers: sh.scs, tweak: sh.st}
+	sc := serverCfg{auth: sa, enc: se, integ: si, methods: sh.sm, ciphers: sh.scs, tweak: sh.st, policy: sh.policy}
 	sees := ""
 	if sh.nat {
 		sees = "192.0.2.77:9618"
@@ -1568,8 +1577,185 @@ func reportedIsReal(c *Ctx, prop, keyPrefix string, sh pairShape, ca, sa, ce, se
 	}
 }
 
+// c10Judge: the property oracle of C10 for ONE handshake of two real endpoints -- the decision table
+// written from the property text -- applied to the cell as if it stood alone (history plays no part in
+// the property: the same configurations give the same outcome whatever the endpoints did before).
+// history: the ops of the handshakes that preceded this one on the same server policy object (replay).
+func c10Judge(c *Ctx, sh pairShape, ca, sa, ce, se string, v pairVerdict, history []string) {
+	cl, sv, denied, msgOK, op, real := v.run.cl, v.run.sv, v.run.denied, v.run.msgOK, v.op, v.real
+	ops := append(append([]string{}, history...), op)
+	// ---- property oracle C10: the decision table written from the property text ----
+	common := "" // first method in the server's order that both list and that can actually run
+	for _, m := range sh.sm {
+		if contains(sh.cm, m) && contains(sh.ok, m) && m != "PASSWORD" && m != "NONE" {
+			common = m
+			break
+		}
+	}
+	listed := "" // first implemented method both sides LIST (whether or not it can complete between them)
+	for _, m := range sh.sm {
+		if contains(sh.cm, m) && m != "PASSWORD" && m != "NONE" {
+			listed = m
+			break
+		}
+	}
+	// the only failure is discovered while the exchanges run: a commonly listed method exists, none completes
+	runtimeOnly := listed != "" && common == ""
+	cipher := false
+	for _, x := range sh.scs {
+		if contains(sh.cc, x) {
+			cipher = true
+		}
+	}
+	req := func(a, b string) bool { return a == "REQUIRED" || b == "REQUIRED" }
+	nev := func(a, b string) bool { return a == "NEVER" || b == "NEVER" }
+	pref := func(a, b string) bool { return a == "PREFERRED" || b == "PREFERRED" }
+	wantAuth := req(ca, sa) || (!nev(ca, sa) && pref(ca, sa) && common != "")
+	encOn := req(ce, se) || (!nev(ce, se) && pref(ce, se) && cipher)
+	fail := (req(ca, sa) && nev(ca, sa)) || (req(ce, se) && nev(ce, se)) || (req(ca, sa) && common == "") || (req(ce, se) && !cipher)
+	ci, sig := sh.integ()
+	// integrity REQUIRED is not a row of the property's table: with no common cipher such a
+	// handshake cannot succeed; the table is then silent (compared with the model only)
+	integStuck := (ci == "REQUIRED" || sig == "REQUIRED") && !cipher
+	viol := func(key, what, exp, obs string) {
+		if len(history) > 0 {
+			what += fmt.Sprintf(" [handshake %d on one server policy object; the earlier ones are the first ops]", len(history)+1)
+		}
+		c.Violate(Violation{Property: "C10", Key: "C10:" + key, What: what, Ops: ops, Expected: exp, Observed: obs})
+	}
+	if fail {
+		if cl.err == nil || sv.err == nil {
+			viol("should-fail:"+sh.name, "handshake succeeded although one side requires what the other forbids / a required feature has no common method", "failure with explicit denial", real)
+		} else if !denied && !(runtimeOnly && !(req(ca, sa) && nev(ca, sa)) && !(req(ce, se) && (nev(ce, se) || !cipher))) {
+			// (when every commonly listed method fails while it RUNS, it is the client that gives up --
+			// it sends the final 0 and holds the per-method errors -- so it is not left with a bare close)
+			viol("bare-close:"+sh.name, "handshake failed without an explicit denial reaching the client (the server's last message on the wire is not an ad carrying a denial return code)", "DENIED response on the wire", "none")
+		}
+	} else if integStuck {
+		if cl.err == nil && sv.err == nil {
+			viol("integ-required-off:"+sh.name, "integrity REQUIRED, no common cipher, yet the handshake succeeded", "failure", real)
+		}
+	} else {
+		if (cl.err != nil || sv.err != nil) && runtimeOnly && pref(ca, sa) {
+			// nobody requires authentication, somebody prefers it, the commonly listed methods all fail on
+			// the wire: no mutually usable method exists, so by the table the handshake goes on unauthenticated
+			viol("preferred-auth-fails-late:"+sh.name, "authentication is only PREFERRED, every commonly listed method failed while it ran (no mutually usable method), and the handshake failed instead of continuing unauthenticated", fmt.Sprintf("success (auth=false, enc>=%v)", encOn), fmt.Sprintf("client failed=%v / server failed=%v", cl.err != nil, sv.err != nil))
+		} else if cl.err != nil || sv.err != nil {
+			viol("should-succeed:"+sh.name, "handshake failed although the policy table says it succeeds", fmt.Sprintf("success (auth=%v, enc>=%v)", wantAuth, encOn), fmt.Sprintf("client failed=%v / server failed=%v", cl.err != nil, sv.err != nil))
+		} else {
+			if cl.neg.Authentication != sv.neg.Authentication || cl.neg.Encryption != sv.neg.Encryption {
+				viol("disagree-flags:"+sh.name, "endpoints report different authentication/encryption outcomes", "equal", real)
+			}
+			if sv.neg.Authentication && cl.neg.Authentication && cl.neg.NegotiatedAuth != sv.neg.NegotiatedAuth {
+				viol("disagree-method:"+sh.name, "endpoints report different authentication methods", string(sv.neg.NegotiatedAuth), string(cl.neg.NegotiatedAuth))
+			}
+			if sv.neg.Authentication && cl.neg.Authentication && cl.neg.User != sv.neg.User {
+				viol("disagree-user:"+sh.name, "endpoints report different authenticated identities", "equal", "different")
+			}
+			if sv.neg.Authentication != wantAuth {
+				viol("auth-table:"+sh.name, "authentication ran/did not run contrary to the policy table", fmt.Sprint(wantAuth), fmt.Sprint(sv.neg.Authentication))
+			}
+			if v.run.wire.parsed && (len(v.run.wire.ranOK) > 0) != wantAuth {
+				viol("auth-table-wire:"+sh.name, "an authentication exchange completed / did not complete on the wire contrary to the policy table", fmt.Sprint(wantAuth), joinDash(v.run.wire.ranOK))
+			}
+			if (req(ce, se) || ci == "REQUIRED" || sig == "REQUIRED") && !(cl.st.IsEncrypted() && sv.st.IsEncrypted()) {
+				viol("enc-required-off:"+sh.name, "encryption/integrity required by one side but the stream is not protected", "encrypted", real)
+			}
+			if cl.neg.SessionId != sv.neg.SessionId {
+				viol("sid:"+sh.name, "session identifiers differ", sv.neg.SessionId, cl.neg.SessionId)
+			}
+			if !bytes.Equal(cl.neg.GetSharedSecret(), sv.neg.GetSharedSecret()) {
+				viol("key:"+sh.name, "endpoints hold different keys", "same", "different")
+			}
+			if msgOK != "1" {
+				viol("no-traffic:"+sh.name, "endpoints could not exchange messages both ways right after the handshake", "messages both ways", "failed")
+			}
+		}
+	}
+	// reported outcome = what happened on the wire, on both ends (also a C10 matter: "both
+	// endpoints report the same authentication and encryption outcome")
+	reportedIsReal(c, "C10", "C10:"+sh.name+":", sh, ca, sa, ce, se, v)
+}
+
+
+// matrixSequences: 2-3 handshakes, one after the other, against ONE server policy object (every
+// connection a shallow copy of it, as a serving daemon makes them). The property's table knows no
+// history: each handshake is compared with the model and judged by the table as if it were alone.
+// Sequences mix a handshake whose FIRST common method fails on the wire (bad token, FS through an
+// address translator) with handshakes that need exactly that method, and with plain ones.
+func matrixSequences(c *Ctx, mat *hsMaterial) (cases []Case) {
+	aes := []string{"AES"}
+	type step struct {
+		name string
+		cm   []string
+		ok   []string // methods that can complete between this client and the server
+		nat  bool
+		ct   func(*security.SecurityConfig)
+	}
+	steps := map[string]step{
+		"badtoken+claim": {"badtoken+claim", []string{"TOKEN", "CLAIMTOBE"}, []string{"CLAIMTOBE"}, false, mat.cliToken(mat.badTokenFile)},
+		"token-only":     {"token-only", []string{"TOKEN"}, []string{"TOKEN", "CLAIMTOBE"}, false, mat.cliToken(mat.tokenFile)},
+		"token+claim":    {"token+claim", []string{"CLAIMTOBE", "TOKEN"}, []string{"TOKEN", "CLAIMTOBE"}, false, mat.cliToken(mat.tokenFile)},
+		"claim-only":     {"claim-only", []string{"CLAIMTOBE"}, []string{"TOKEN", "CLAIMTOBE"}, false, nil},
+		"fs-nat+claim":   {"fs-nat+claim", []string{"FS", "CLAIMTOBE"}, []string{"CLAIMTOBE"}, true, nil},
+		"fs-only":        {"fs-only", []string{"FS"}, []string{"FS", "CLAIMTOBE", "TOKEN"}, false, nil},
+		"fs+claim":       {"fs+claim", []string{"FS", "CLAIMTOBE"}, []string{"FS", "CLAIMTOBE", "TOKEN"}, false, nil},
+	}
+	type family struct {
+		sm   []string
+		seqs [][]string
+	}
+	fams := []family{
+		{[]string{"TOKEN", "CLAIMTOBE"}, [][]string{{"badtoken+claim", "token-only"}, {"badtoken+claim", "token+claim", "claim-only"}, {"token-only", "badtoken+claim", "token-only"}, {"badtoken+claim", "badtoken+claim", "token+claim"}}},
+		{[]string{"CLAIMTOBE", "TOKEN"}, [][]string{{"badtoken+claim", "token-only"}, {"claim-only", "token-only", "badtoken+claim"}}},
+		{[]string{"FS", "CLAIMTOBE"}, [][]string{{"fs-nat+claim", "fs-only"}, {"fs-nat+claim", "fs+claim", "claim-only"}, {"fs-only", "fs-nat+claim", "fs-only"}}},
+		{[]string{"FS", "TOKEN", "CLAIMTOBE"}, [][]string{{"fs-nat+claim", "badtoken+claim", "token-only"}, {"badtoken+claim", "fs-nat+claim", "fs-only"}}},
+	}
+	k := int(c.Seed)
+	for _, fam := range fams {
+		for _, sa := range levels {
+			for _, seq := range fam.seqs {
+				k++
+				se := levels[k%4]
+				if !c.Thorough() && sa == "NEVER" && k%2 == 0 {
+					continue
+				}
+				// the policy object lives as long as the sequence
+				policy := &security.SecurityConfig{AuthMethods: toMethods(fam.sm), Authentication: security.SecurityLevel(sa),
+					CryptoMethods: toCiphers(aes), Encryption: security.SecurityLevel(se), Integrity: security.SecurityOptional}
+				mat.srvToken()(policy)
+				var history []string
+				for i, sn := range seq {
+					st := steps[sn]
+					ca := []string{"REQUIRED", "PREFERRED", "OPTIONAL", "REQUIRED"}[(k+i)%4]
+					ce := levels[(k+2*i)%4]
+					sh := pairShape{name: "seq:" + st.name, cm: st.cm, sm: fam.sm, cc: aes, scs: aes, ok: st.ok, nat: st.nat, ct: st.ct, st: mat.srvToken(), policy: policy}
+					t0 := time.Now()
+					v := runPairCell(sh, ca, sa, ce, se, []int{60007, 0, security.NoCommand}[(k+i)%3])
+					if d := time.Since(t0); d > time.Second && os.Getenv("VERIF_DEBUG") != "" {
+						fmt.Fprintf(os.Stderr, "SLOW %v %s -> %s\n", d, v.op, v.real)
+					}
+					cases = append(cases, Case{Label: fmt.Sprintf("sequence step %d/%d %s", i+1, len(seq), st.name), Ops: []string{v.op}, Real: []string{v.real}})
+					c.Distinct(strings.Join(append(append([]string{}, history...), v.op), " ; "), true)
+					c.Count("sequence-step:" + st.name)
+					if i > 0 {
+						c.Count("sequence:handshake-after-others-on-one-policy-object")
+					}
+					if len(v.run.wire.ranAny) > 1 {
+						c.Count("sequence:first-method-failed-on-the-wire")
+					}
+					c10Judge(c, sh, ca, sa, ce, se, v, history)
+					history = append(history, v.op)
+				}
+				c.Count("sequences")
+			}
+		}
+	}
+	return
+}
+
 func runMatrix(c *Ctx) error {
-	c.Res.Rule = "two real cedar endpoints over an in-memory duplex pipe with a wire tap: the full 4^4 matrix of (client auth, server auth, client enc, server enc) levels x method-list shapes (equal, disjoint, overlapping in both orders, empty on either side, containing the unimplemented PASSWORD, PASSWORD only, both SCITOKENS and IDTOKENS, and four shapes where TWO methods can run: the first common one failing on the wire (FS through an address translator, TOKEN with a token signed by another key) or succeeding) x cipher lists (common / none) x integrity levels (OPTIONAL; REQUIRED on either side with and without a common cipher; NEVER), the client's command rotating over a real command, command 0 and none (auth-only); after success a canary message is exchanged each way; which method completed is read from the wire; outcome compared with the Lean model honestRun and with the property's decision table; exhaustive over the matrix for each shape; non-trivial = always (each cell distinct)"
+	c.Res.Rule = "two real cedar endpoints over an in-memory duplex pipe with a wire tap: the full 4^4 matrix of (client auth, server auth, client enc, server enc) levels x method-list shapes (equal, disjoint, overlapping in both orders, empty on either side, containing the unimplemented PASSWORD, PASSWORD only, both SCITOKENS and IDTOKENS, and four shapes where TWO methods can run: the first common one failing on the wire (FS through an address translator, TOKEN with a token signed by another key) or succeeding) x cipher lists (common / none) x integrity levels (OPTIONAL; REQUIRED on either side with and without a common cipher; NEVER), the client's command rotating over a real command, command 0 and none (auth-only); plus SEQUENCES of 2-3 handshakes against ONE long-lived server policy object (each connection a shallow copy of it), mixing a handshake whose first common method fails on the wire with handshakes that need exactly that method, each compared and judged as if it were alone; after success a canary message is exchanged each way; which method completed is read from the wire; outcome compared with the Lean model honestRun and with the property's decision table; exhaustive over the matrix for each shape; non-trivial = always (each cell distinct)"
 	defer quietStdout()()
 	mat, cleanup, err := hsPrepare(c)
 	if err != nil {
@@ -1637,106 +1823,19 @@ func runMatrix(c *Ctx) error {
 						cmd := []int{60007, 0, security.NoCommand}[cellNo%3]
 						v := runPairCell(sh, ca, sa, ce, se, cmd)
 						c.Count(fmt.Sprintf("command:%d", cmd))
-						cl, sv, denied, msgOK, op, real := v.run.cl, v.run.sv, v.run.denied, v.run.msgOK, v.op, v.real
-						cases = append(cases, Case{Label: "honest " + sh.name, Ops: []string{op}, Real: []string{real}})
-						c.Distinct(op, true)
+						cases = append(cases, Case{Label: "honest " + sh.name, Ops: []string{v.op}, Real: []string{v.real}})
+						c.Distinct(v.op, true)
 						c.Count("shape:" + sh.name)
 						if len(v.run.wire.ranAny) > 1 {
 							c.Count("first-method-failed-on-the-wire")
 						}
-						// ---- property oracle C10: the decision table written from the property text ----
-						common := "" // first method in the server's order that both list and that can actually run
-						for _, m := range sh.sm {
-							if contains(sh.cm, m) && contains(sh.ok, m) && m != "PASSWORD" && m != "NONE" {
-								common = m
-								break
-							}
-						}
-						listed := "" // first implemented method both sides LIST (whether or not it can complete between them)
-						for _, m := range sh.sm {
-							if contains(sh.cm, m) && m != "PASSWORD" && m != "NONE" {
-								listed = m
-								break
-							}
-						}
-						// the only failure is discovered while the exchanges run: a commonly listed method exists, none completes
-						runtimeOnly := listed != "" && common == ""
-						cipher := false
-						for _, x := range sh.scs {
-							if contains(sh.cc, x) {
-								cipher = true
-							}
-						}
-						req := func(a, b string) bool { return a == "REQUIRED" || b == "REQUIRED" }
-						nev := func(a, b string) bool { return a == "NEVER" || b == "NEVER" }
-						pref := func(a, b string) bool { return a == "PREFERRED" || b == "PREFERRED" }
-						wantAuth := req(ca, sa) || (!nev(ca, sa) && pref(ca, sa) && common != "")
-						encOn := req(ce, se) || (!nev(ce, se) && pref(ce, se) && cipher)
-						fail := (req(ca, sa) && nev(ca, sa)) || (req(ce, se) && nev(ce, se)) || (req(ca, sa) && common == "") || (req(ce, se) && !cipher)
-						ci, sig := sh.integ()
-						// integrity REQUIRED is not a row of the property's table: with no common cipher such a
-						// handshake cannot succeed; the table is then silent (compared with the model only)
-						integStuck := (ci == "REQUIRED" || sig == "REQUIRED") && !cipher
-						viol := func(key, what, exp, obs string) {
-							c.Violate(Violation{Property: "C10", Key: "C10:" + key, What: what, Ops: []string{op}, Expected: exp, Observed: obs})
-						}
-						if fail {
-							if cl.err == nil || sv.err == nil {
-								viol("should-fail:"+sh.name, "handshake succeeded although one side requires what the other forbids / a required feature has no common method", "failure with explicit denial", real)
-							} else if !denied && !(runtimeOnly && !(req(ca, sa) && nev(ca, sa)) && !(req(ce, se) && (nev(ce, se) || !cipher))) {
-								// (when every commonly listed method fails while it RUNS, it is the client that gives up --
-								// it sends the final 0 and holds the per-method errors -- so it is not left with a bare close)
-								viol("bare-close:"+sh.name, "handshake failed without an explicit denial reaching the client (the server's last message on the wire is not an ad carrying a denial return code)", "DENIED response on the wire", "none")
-							}
-						} else if integStuck {
-							if cl.err == nil && sv.err == nil {
-								viol("integ-required-off:"+sh.name, "integrity REQUIRED, no common cipher, yet the handshake succeeded", "failure", real)
-							}
-						} else {
-							if (cl.err != nil || sv.err != nil) && runtimeOnly && pref(ca, sa) {
-								// nobody requires authentication, somebody prefers it, the commonly listed methods all fail on
-								// the wire: no mutually usable method exists, so by the table the handshake goes on unauthenticated
-								viol("preferred-auth-fails-late:"+sh.name, "authentication is only PREFERRED, every commonly listed method failed while it ran (no mutually usable method), and the handshake failed instead of continuing unauthenticated", fmt.Sprintf("success (auth=false, enc>=%v)", encOn), fmt.Sprintf("client failed=%v / server failed=%v", cl.err != nil, sv.err != nil))
-							} else if cl.err != nil || sv.err != nil {
-								viol("should-succeed:"+sh.name, "handshake failed although the policy table says it succeeds", fmt.Sprintf("success (auth=%v, enc>=%v)", wantAuth, encOn), fmt.Sprintf("client failed=%v / server failed=%v", cl.err != nil, sv.err != nil))
-							} else {
-								if cl.neg.Authentication != sv.neg.Authentication || cl.neg.Encryption != sv.neg.Encryption {
-									viol("disagree-flags:"+sh.name, "endpoints report different authentication/encryption outcomes", "equal", real)
-								}
-								if sv.neg.Authentication && cl.neg.Authentication && cl.neg.NegotiatedAuth != sv.neg.NegotiatedAuth {
-									viol("disagree-method:"+sh.name, "endpoints report different authentication methods", string(sv.neg.NegotiatedAuth), string(cl.neg.NegotiatedAuth))
-								}
-								if sv.neg.Authentication && cl.neg.Authentication && cl.neg.User != sv.neg.User {
-									viol("disagree-user:"+sh.name, "endpoints report different authenticated identities", "equal", "different")
-								}
-								if sv.neg.Authentication != wantAuth {
-									viol("auth-table:"+sh.name, "authentication ran/did not run contrary to the policy table", fmt.Sprint(wantAuth), fmt.Sprint(sv.neg.Authentication))
-								}
-								if v.run.wire.parsed && (len(v.run.wire.ranOK) > 0) != wantAuth {
-									viol("auth-table-wire:"+sh.name, "an authentication exchange completed / did not complete on the wire contrary to the policy table", fmt.Sprint(wantAuth), joinDash(v.run.wire.ranOK))
-								}
-								if (req(ce, se) || ci == "REQUIRED" || sig == "REQUIRED") && !(cl.st.IsEncrypted() && sv.st.IsEncrypted()) {
-									viol("enc-required-off:"+sh.name, "encryption/integrity required by one side but the stream is not protected", "encrypted", real)
-								}
-								if cl.neg.SessionId != sv.neg.SessionId {
-									viol("sid:"+sh.name, "session identifiers differ", sv.neg.SessionId, cl.neg.SessionId)
-								}
-								if !bytes.Equal(cl.neg.GetSharedSecret(), sv.neg.GetSharedSecret()) {
-									viol("key:"+sh.name, "endpoints hold different keys", "same", "different")
-								}
-								if msgOK != "1" {
-									viol("no-traffic:"+sh.name, "endpoints could not exchange messages both ways right after the handshake", "messages both ways", "failed")
-								}
-							}
-						}
-						// reported outcome = what happened on the wire, on both ends (also a C10 matter: "both
-						// endpoints report the same authentication and encryption outcome")
-						reportedIsReal(c, "C10", "C10:"+sh.name+":", sh, ca, sa, ce, se, v)
+						c10Judge(c, sh, ca, sa, ce, se, v, nil)
 					}
 				}
 			}
 		}
 	}
+	cases = append(cases, matrixSequences(c, mat)...)
 	for i, cs := range cases {
 		if i%211 == 0 {
 			c.Sample(map[string]any{"op": cs.Ops[0], "real": cs.Real[0]})
